@@ -787,7 +787,9 @@ def _close_doc_case(case: dict, res: Result) -> None:
     if not displayed:
         res.count("cases_where_text_is_not_displayed")
     if not res.violations:
-        res.outcomes.add("inert:displayed" if displayed else "inert:not_displayed")
+        doc = case.get("doc")
+        need = "constant" if doc is None else ("needs_escaping" if SPECIAL.search(doc) else "plain")
+        res.outcomes.add(("inert:displayed:" if displayed else "inert:not_displayed:") + need)
 
 
 def eval_case(case: dict, scratch: pathlib.Path, base_cache: typing.Optional[dict] = None) -> Result:
